@@ -316,7 +316,8 @@ theorem phaseOf_append (r : Reg) (log : List Ev) (e : Ev) :
   · simp [h]
 
 /-- what the lifecycle phase of a register says about the rest of the state -/
-def GoodCore (ph : Phase) (ready : Bool) (inLive : Bool) (proc : Proc) (rid : Nat) : Prop :=
+def GoodCore (ph : Phase) (ready : Bool) (inLive : Bool) (proc : Proc) (rid : Nat) (lnone : Bool) : Prop :=
+  (ph = .ended → ready = false → lnone = true) ∧
   ph ≠ .bad ∧ (ph = .init → ready = false) ∧ (ph = .est → ready = true) ∧
   (ph = .ended → inLive = false ∧
     (match proc with
@@ -330,7 +331,8 @@ def GoodCore (ph : Phase) (ready : Bool) (inLive : Bool) (proc : Proc) (rid : Na
    | .afterReceive id _ => id = rid → ready = true
    | _ => True)
 
-def Good (s : St) (r : Reg) : Prop := GoodCore (phaseOf r s.log) r.ready (s.live.contains r.id) s.proc r.id
+def Good (s : St) (r : Reg) : Prop :=
+  GoodCore (phaseOf r s.log) r.ready (s.live.contains r.id) s.proc r.id r.listener.isNone
 
 def LogIds (s : St) : Prop := ∀ e ∈ s.log, ∀ id, e.rid = some id → id < s.nextRemote
 
@@ -338,6 +340,7 @@ structure Inv (s : St) : Prop where
   fresh : Fresh s
   logIds : LogIds s
   good : ∀ r ∈ s.regs, Good s r
+  procId : ∀ id, procHolds s.proc = some id → id < s.nextRemote
 
 theorem find_unique : ∀ (regs : List Reg) (r : Reg), (regs.map (·.id)).Nodup → r ∈ regs →
     regs.find? (fun x => decide (x.id = r.id)) = some r := by
@@ -371,5 +374,949 @@ theorem proj_nil_of_fresh (s : St) (h : LogIds s) (id : Nat) (hid : s.nextRemote
   intro heq
   have := h e he id heq
   omega
+
+theorem contains_filter_ne (l : List Nat) (a b : Nat) (h : (l.filter (· ≠ a)).contains b = true) :
+    l.contains b = true := by
+  simp only [List.contains_eq_mem, List.mem_filter, decide_eq_true_eq] at h ⊢
+  exact h.1
+
+/-- nothing that `Good` looks at got worse for `r` -/
+theorem Good_mono (s s' : St) (r : Reg) (h : Good s r) (hlog : s'.log = s.log) (hproc : s'.proc = s.proc)
+    (hlive : s'.live.contains r.id = true → s.live.contains r.id = true) : Good s' r := by
+  unfold Good GoodCore at *
+  rw [hlog, hproc]
+  obtain ⟨h0, h1, h2, h3, h4, h5⟩ := h
+  refine ⟨h0, h1, h2, h3, ?_, h5⟩
+  intro he
+  obtain ⟨h6, h7⟩ := h4 he
+  refine ⟨?_, h7⟩
+  cases hc : s'.live.contains r.id
+  · rfl
+  · rw [hlive hc] at h6; exact h6
+
+/-- the processor moves between states that do not concern `r` (or are harmless for it) -/
+theorem Good_proc (s s' : St) (r : Reg) (h : Good s r) (hlog : phaseOf r s'.log = phaseOf r s.log)
+    (hlive : s'.live.contains r.id = true → s.live.contains r.id = true)
+    (hp4 : phaseOf r s.log = .ended →
+      (match s'.proc with
+       | .got id _ => id ≠ r.id
+       | .receiving id _ _ => id ≠ r.id
+       | .afterReceive id _ => id ≠ r.id
+       | .readyChecked id _ => id = r.id → r.ready = false
+       | _ => True))
+    (hp5 : (match s'.proc with
+       | .receiving id _ _ => id = r.id → r.ready = true
+       | .afterReceive id _ => id = r.id → r.ready = true
+       | _ => True)) : Good s' r := by
+  unfold Good GoodCore at *
+  rw [hlog]
+  obtain ⟨h0, h1, h2, h3, h4, _⟩ := h
+  refine ⟨h0, h1, h2, h3, ?_, hp5⟩
+  intro he
+  obtain ⟨h6, _⟩ := h4 he
+  refine ⟨?_, hp4 he⟩
+  cases hc : s'.live.contains r.id
+  · rfl
+  · rw [hlive hc] at h6; exact h6
+
+theorem LogIds_of (s s' : St) (h : LogIds s) (hlog : s'.log = s.log) (hn : s.nextRemote ≤ s'.nextRemote) :
+    LogIds s' := by
+  intro e he id hid
+  rw [hlog] at he
+  have := h e he id hid
+  omega
+
+theorem LogIds_emit (s s' : St) (h : LogIds s) (e : Ev) (hlog : s'.log = s.log ++ [e])
+    (hn : s'.nextRemote = s.nextRemote) (he : ∀ id, e.rid = some id → id < s.nextRemote) : LogIds s' := by
+  intro e' he' id hid
+  rw [hlog] at he'
+  rw [hn]
+  rcases List.mem_append.mp he' with h1 | h1
+  · exact h e' h1 id hid
+  · simp only [List.mem_singleton] at h1; subst h1; exact he id hid
+
+/-- a freshly registered remote: no event mentions it yet -/
+theorem Good_new (s s' : St) (hl : LogIds s) (r : Reg) (hid : r.id = s.nextRemote) (hr : r.ready = false)
+    (hlog : s'.log = s.log)
+    (hproc : match s'.proc with
+      | .receiving id _ _ => id ≠ r.id
+      | .afterReceive id _ => id ≠ r.id
+      | _ => True) : Good s' r := by
+  unfold Good GoodCore
+  have hp : phaseOf r s'.log = .init := by
+    unfold phaseOf
+    rw [hlog, proj_nil_of_fresh s hl r.id (by omega)]
+    rfl
+  rw [hp]
+  refine ⟨by simp, by simp, fun _ => hr, by simp, by simp, ?_⟩
+  split <;> simp_all
+
+theorem phaseOf_congr (r r' : Reg) (log : List Ev) (h1 : r.id = r'.id) (h2 : r.listener = r'.listener) :
+    phaseOf r log = phaseOf r' log := by
+  unfold phaseOf; rw [h1, h2]
+
+theorem phaseOf_emit_other (r : Reg) (log : List Ev) (e : Ev) (h : e.rid ≠ some r.id) :
+    phaseOf r (log ++ [e]) = phaseOf r log := by
+  rw [phaseOf_append, if_neg h]
+
+theorem Inv_init : Inv {} := by
+  constructor
+  · exact Fresh_init
+  · intro e he; simp at he
+  · intro r hr; simp at hr
+  · intro id h; simp [procHolds] at h
+
+/-- user calls that only record their result -/
+theorem Inv_record (s : St) (h : Inv s) (c : String) (id : Nat) (res : String) : Inv (record s c id res) :=
+  ⟨Fresh_of_eq s _ h.fresh rfl rfl rfl rfl rfl rfl, LogIds_of s _ h.logIds rfl (Nat.le_refl _),
+    fun r hr => Good_mono s _ r (h.good r hr) rfl rfl (fun x => x), h.procId⟩
+
+theorem step_inv (s s' : St) (a : Act) (h : Inv s) (hs : step s a = some s') : Inv s' := by
+  have hf' : Fresh s' := step_fresh s s' a h.fresh hs
+  cases a with
+  | connect peer =>
+    simp only [step, Option.some.injEq] at hs; subst hs
+    refine ⟨hf', LogIds_of s _ h.logIds rfl (by simp [record]), ?_, ?_⟩
+    · intro r hr
+      simp only [record] at hr
+      rcases List.mem_append.mp hr with hr | hr
+      · refine Good_mono s _ r (h.good r hr) ?_ ?_ ?_
+        · rfl
+        · rfl
+        intro hc
+        simp only [record, List.contains_eq_mem, List.mem_append, List.mem_singleton, decide_eq_true_eq] at hc ⊢
+        rcases hc with hc | hc
+        · exact hc
+        · have := h.fresh.regsLt r hr; omega
+      · simp only [List.mem_singleton] at hr; subst hr
+        refine Good_new s _ h.logIds _ ?_ ?_ ?_ ?_
+        · rfl
+        · rfl
+        · rfl
+        have hp := h.procId
+        simp only [record]
+        split
+        · rename_i id l d hpr
+          intro heq
+          have := hp id (by simp [procHolds, hpr])
+          omega
+        · rename_i id d hpr
+          intro heq
+          have := hp id (by simp [procHolds, hpr])
+          omega
+        · trivial
+    · intro id hid; have := h.procId id hid; simp only [record]; omega
+  | listen =>
+    simp only [step, Option.some.injEq] at hs; subst hs
+    exact ⟨hf', LogIds_of s _ h.logIds rfl (Nat.le_refl _),
+      fun r hr => Good_mono s _ r (h.good r hr) rfl rfl (fun x => x), h.procId⟩
+  | send id adapter =>
+    simp only [step] at hs
+    split at hs
+    · split at hs
+      · split at hs
+        · simp only [Option.some.injEq] at hs; subst hs
+          exact ⟨hf', LogIds_of s _ h.logIds rfl (Nat.le_refl _),
+            fun r hr => Good_mono s _ r (h.good r hr) rfl rfl (fun x => x), h.procId⟩
+        · simp only [Option.some.injEq] at hs; subst hs; exact Inv_record s h _ _ _
+      · simp only [Option.some.injEq] at hs; subst hs; exact Inv_record s h _ _ _
+    · simp only [Option.some.injEq] at hs; subst hs; exact Inv_record s h _ _ _
+  | remove id =>
+    simp only [step, Option.some.injEq] at hs; subst hs
+    obtain ⟨d1, d2, d3, d4, d5, d6, d7⟩ := deregister_live s id .user
+    refine ⟨hf', ?_, ?_, ?_⟩
+    · split <;> exact LogIds_of s _ h.logIds (by simp [record, d3]) (by simp [record, d5])
+    · intro r hr
+      have hr' : r ∈ s.regs := by split at hr <;> simpa [record, d2] using hr
+      split <;> (refine Good_mono s _ r (h.good r hr') ?_ ?_ ?_
+                 · simp [record, d3]
+                 · simp [record, d4]
+                 · intro hc; simp only [record, d1] at hc; exact contains_filter_ne _ _ _ hc)
+    · intro x hx
+      have : procHolds s.proc = some x := by split at hx <;> simpa [record, d4] using hx
+      have := h.procId x this
+      split <;> simp [record, d5] <;> omega
+  | removeLocal lid =>
+    simp only [step] at hs
+    split at hs
+    · simp only [Option.some.injEq] at hs; subst hs
+      exact ⟨hf', LogIds_of s _ h.logIds rfl (Nat.le_refl _),
+        fun r hr => Good_mono s _ r (h.good r hr) rfl rfl (fun x => x), h.procId⟩
+    · simp only [Option.some.injEq] at hs; subst hs; exact Inv_record s h _ _ _
+  | isReady id =>
+    simp only [step] at hs
+    split at hs
+    · split at hs <;> (simp only [Option.some.injEq] at hs; subst hs; exact Inv_record s h _ _ _)
+    · simp only [Option.some.injEq] at hs; subst hs; exact Inv_record s h _ _ _
+  | pollRemote id read =>
+    simp only [step] at hs
+    split at hs
+    · rename_i hidle
+      split at hs
+      · rename_i hlive
+        simp only [Option.some.injEq] at hs; subst hs
+        have hmem : id ∈ s.live := by simpa [isLive] using hlive
+        refine ⟨hf', LogIds_of s _ h.logIds rfl (Nat.le_refl _), ?_, ?_⟩
+        · intro r hr
+          refine Good_proc s _ r (h.good r hr) ?_ ?_ ?_ ?_
+          · rfl
+          · exact fun x => x
+          · intro he
+            simp only
+            intro heq; subst heq
+            have hg := h.good r hr
+            unfold Good GoodCore at hg
+            have := (hg.2.2.2.2.1 he).1
+            simp [hmem] at this
+          · simp
+        · intro x hx
+          simp only [procHolds, Option.some.injEq] at hx; subst hx
+          obtain ⟨r, hr, hrid⟩ := h.fresh.liveReg id hmem
+          have := h.fresh.regsLt r hr
+          simp only; omega
+      · simp only [Option.some.injEq] at hs; subst hs; exact h
+    · simp at hs
+  | pending ans =>
+    simp only [step] at hs
+    split at hs
+    · rename_i id read hproc
+      split at hs
+      · rename_i r0 hfind
+        obtain ⟨hr0, hr0id⟩ := findReg_some s id r0 hfind
+        have hidlt : id < s.nextRemote := h.procId id (by simp [procHolds, hproc])
+        have huniq : ∀ r ∈ s.regs, r.id = id → r = r0 := by
+          intro r hr hrid
+          have := findReg_unique s h.fresh r hr
+          rw [hrid, hfind] at this
+          exact (Option.some.inj this).symm
+        split at hs
+        · simp at hs
+        · rename_i hnr
+          have hnr' : r0.ready = false := by simpa using hnr
+          -- the register being resolved is in its initial phase
+          have hph0 : phaseOf r0 s.log = .init := by
+            have hg := h.good r0 hr0
+            unfold Good GoodCore at hg
+            obtain ⟨_, g1, g2, g3, g4, _⟩ := hg
+            cases hp : phaseOf r0 s.log with
+            | init => rfl
+            | est => have := g3 hp; simp [hnr'] at this
+            | ended =>
+              have := (g4 hp).2
+              rw [hproc] at this
+              exact absurd hr0id.symm this
+            | bad => exact absurd hp g1
+          cases ans with
+          | ready =>
+            simp only [Option.some.injEq] at hs; subst hs
+            refine ⟨hf', ?_, ?_, ?_⟩
+            · refine LogIds_emit s _ h.logIds _ rfl rfl ?_
+              intro x hx
+              cases hl : r0.listener <;> simp [hl, Ev.rid] at hx <;> omega
+            · intro r' hr'
+              simp only [emit] at hr'
+              obtain ⟨r, hr, hreq⟩ := List.mem_map.mp (by simpa [setReady] using hr')
+              by_cases hrid : r.id = id
+              · have hrr0 := huniq r hr hrid
+                subst hrr0
+                have hr'f : r'.id = r.id ∧ r'.listener = r.listener ∧ r'.ready = true := by
+                  rw [← hreq, if_pos hrid]; simp
+                obtain ⟨e1, e2, e3⟩ := hr'f
+                unfold Good GoodCore
+                simp only [emit]
+                cases hl : r.listener with
+                | none =>
+                  have hph : phaseOf r' (s.log ++ [Ev.connected id true]) = .est := by
+                    rw [phaseOf_congr r' r _ e1 e2, phaseOf_append, hph0]
+                    simp [Ev.rid, hrid, phaseStep, hl]
+                  rw [hph, e3]
+                  simp
+                | some l =>
+                  have hph : phaseOf r' (s.log ++ [Ev.accepted id l]) = .est := by
+                    rw [phaseOf_congr r' r _ e1 e2, phaseOf_append, hph0]
+                    simp [Ev.rid, hrid, phaseStep, hl]
+                  rw [hph, e3]
+                  simp
+              · have hreq' : r' = r := by rw [← hreq, if_neg hrid]
+                subst hreq'
+                refine Good_proc s _ r' (h.good r' hr) ?_ (fun x => x) ?_ ?_
+                · simp only [emit]
+                  apply phaseOf_emit_other
+                  cases r0.listener <;> simp [Ev.rid] <;> exact fun hh => hrid hh.symm
+                · intro _; simp only [emit]; intro heq; exact absurd heq.symm hrid
+                · simp [emit]
+            · intro x hx
+              simp only [emit, procHolds, Option.some.injEq] at hx; subst hx
+              simpa [emit] using hidlt
+          | incomplete =>
+            simp only [Option.some.injEq] at hs; subst hs
+            refine ⟨hf', LogIds_of s _ h.logIds rfl (Nat.le_refl _), ?_, ?_⟩
+            · intro r hr
+              refine Good_proc s _ r (h.good r hr) rfl (fun x => x) ?_ ?_
+              · intro _; simp only; intro heq
+                rw [huniq r hr heq.symm]; exact hnr'
+              · simp
+            · intro x hx
+              simp only [procHolds, Option.some.injEq] at hx; subst hx; exact hidlt
+          | disconnected =>
+            simp only [Option.some.injEq] at hs; subst hs
+            obtain ⟨d1, d2, d3, d4, d5, d6, d7⟩ := deregister_live s id .procPending
+            have hnotlive : ((deregister s id .procPending).2.live.contains id) = false := by
+              rw [d1]; simp
+            refine ⟨hf', ?_, ?_, ?_⟩
+            · cases hl : r0.listener with
+              | none =>
+                simp only [hl]
+                refine LogIds_emit s _ h.logIds (.connected id false) (by simp [emit, d3]) (by simp [emit, d5]) ?_
+                intro x hx; simp [Ev.rid] at hx; omega
+              | some l =>
+                simp only [hl]
+                exact LogIds_of s _ h.logIds (by simp [d3]) (by simp [d5])
+            · intro r hr
+              have hr' : r ∈ s.regs := by
+                cases hl : r0.listener <;> simp only [hl] at hr <;> simpa [emit, d2] using hr
+              by_cases hrid : r.id = id
+              · have hrr0 := huniq r hr' hrid
+                subst hrr0
+                cases hl : r.listener with
+                | none =>
+                  simp only [hl]
+                  unfold Good GoodCore
+                  have hph : phaseOf r ((deregister s id .procPending).2.log ++ [Ev.connected id false]) = .ended := by
+                    rw [phaseOf_append, d3, hph0]
+                    simp [Ev.rid, hrid, phaseStep, hl]
+                  simp only [emit]
+                  rw [hph, d1]
+                  simp [hrid, hnr', hl]
+                | some l =>
+                  simp only [hl]
+                  unfold Good GoodCore
+                  simp only [d3, hph0]
+                  simp [hnr']
+              · refine Good_proc s _ r (h.good r hr') ?_ ?_ ?_ ?_
+                · cases hl : r0.listener with
+                  | none =>
+                    simp only [hl, emit]
+                    rw [phaseOf_append, d3]
+                    simp [Ev.rid]; intro hh; exact absurd hh.symm hrid
+                  | some l => simp only [hl, d3]
+                · intro hc
+                  have : (deregister s id .procPending).2.live.contains r.id = true := by
+                    cases hl : r0.listener <;> simp only [hl] at hc <;> simpa [emit] using hc
+                  rw [d1] at this
+                  exact contains_filter_ne _ _ _ this
+                · intro _
+                  cases hl : r0.listener <;> simp only [hl, emit] <;> (intro heq; exact absurd heq.symm hrid)
+                · cases hl : r0.listener <;> simp [hl, emit]
+            · intro x hx
+              have : x = id := by
+                cases hl : r0.listener <;> simp only [hl] at hx <;> simpa [emit, procHolds] using hx.symm
+              subst this
+              cases hl : r0.listener <;> simp [hl, emit, d5] <;> exact hidlt
+      · simp at hs
+    · simp at hs
+  | checkReady =>
+    simp only [step] at hs
+    split at hs
+    · rename_i id read hproc
+      split at hs
+      · rename_i r0 hfind
+        obtain ⟨hr0, hr0id⟩ := findReg_some s id r0 hfind
+        split at hs
+        · simp only [Option.some.injEq] at hs; subst hs
+          refine ⟨hf', LogIds_of s _ h.logIds rfl (Nat.le_refl _), ?_, ?_⟩
+          · intro r hr
+            refine Good_proc s _ r (h.good r hr) rfl (fun x => x) ?_ ?_
+            · intro he
+              simp only
+              intro heq
+              have hg := h.good r hr
+              unfold Good GoodCore at hg
+              have := (hg.2.2.2.2.1 he).2
+              rw [hproc] at this
+              exact absurd heq this
+            · simp
+          · intro x hx
+            simp only [procHolds, Option.some.injEq] at hx; subst hx
+            exact h.procId id (by simp [procHolds, hproc])
+        · simp at hs
+      · simp at hs
+    · simp at hs
+  | beginReceive n disc =>
+    simp only [step] at hs
+    split at hs
+    · rename_i id read hproc
+      split at hs
+      · rename_i r0 hfind
+        obtain ⟨hr0, hr0id⟩ := findReg_some s id r0 hfind
+        have huniq : ∀ r ∈ s.regs, r.id = id → r = r0 := by
+          intro r hr hrid
+          have := findReg_unique s h.fresh r hr
+          rw [hrid, hfind] at this
+          exact (Option.some.inj this).symm
+        have toIdle : Inv { s with proc := .idle } :=
+          ⟨Fresh_of_eq s _ h.fresh rfl rfl rfl rfl rfl rfl, LogIds_of s _ h.logIds rfl (Nat.le_refl _),
+            fun r hr => Good_proc s _ r (h.good r hr) rfl (fun x => x) (fun _ => trivial) trivial,
+            fun x hx => by simp [procHolds] at hx⟩
+        split at hs
+        · rename_i hready
+          split at hs
+          · simp only [Option.some.injEq] at hs; subst hs
+            refine ⟨hf', LogIds_of s _ h.logIds rfl (Nat.le_refl _), ?_, ?_⟩
+            · intro r hr
+              refine Good_proc s _ r (h.good r hr) rfl (fun x => x) ?_ ?_
+              · intro he
+                simp only
+                intro heq
+                have hrr0 := huniq r hr heq.symm
+                subst hrr0
+                have hg := h.good r hr
+                unfold Good GoodCore at hg
+                have := (hg.2.2.2.2.1 he).2
+                rw [hproc] at this
+                have := this heq
+                simp [hready] at this
+              · simp only; intro heq
+                rw [huniq r hr heq.symm]; exact hready
+            · intro x hx
+              simp only [procHolds, Option.some.injEq] at hx; subst hx
+              exact h.procId id (by simp [procHolds, hproc])
+          · simp only [Option.some.injEq] at hs; subst hs; exact toIdle
+        · split at hs
+          · simp only [Option.some.injEq] at hs; subst hs; exact toIdle
+          · simp at hs
+      · simp at hs
+    · simp at hs
+  | deliver =>
+    simp only [step] at hs
+    split at hs
+    · rename_i id left disc hproc
+      simp only [Option.some.injEq] at hs; subst hs
+      have hidlt : id < s.nextRemote := h.procId id (by simp [procHolds, hproc])
+      refine ⟨hf', ?_, ?_, ?_⟩
+      · refine LogIds_emit s _ h.logIds (.message id) rfl rfl ?_
+        intro x hx; simp [Ev.rid] at hx; omega
+      · intro r hr
+        simp only [emit] at hr
+        have hg := h.good r hr
+        by_cases hrid : r.id = id
+        · unfold Good GoodCore at hg ⊢
+          rw [hproc] at hg
+          obtain ⟨_, g1, g2, g3, g4, g5⟩ := hg
+          have hready : r.ready = true := g5 hrid.symm
+          have hph : phaseOf r s.log = .est := by
+            cases hp : phaseOf r s.log with
+            | init => have := g2 hp; simp [hready] at this
+            | est => rfl
+            | ended => exact absurd hrid.symm (g4 hp).2
+            | bad => exact absurd hp g1
+          simp only [emit]
+          rw [phaseOf_append, hph]
+          simp [Ev.rid, hrid, phaseStep, hready]
+        · refine Good_proc s _ r hg ?_ (fun x => x) ?_ ?_
+          · simp only [emit]; rw [phaseOf_append]; simp [Ev.rid]; intro hh; exact absurd hh.symm hrid
+          · intro _; simp only [emit]; intro heq; exact absurd heq.symm hrid
+          · simp only [emit]; intro heq; exact absurd heq.symm hrid
+      · intro x hx
+        simp only [emit, procHolds, Option.some.injEq] at hx; subst hx
+        simpa [emit] using hidlt
+    · simp at hs
+  | endReceive =>
+    simp only [step] at hs
+    split at hs
+    · rename_i id disc hproc
+      simp only [Option.some.injEq] at hs; subst hs
+      refine ⟨hf', LogIds_of s _ h.logIds rfl (Nat.le_refl _), ?_, ?_⟩
+      · intro r hr
+        have hg := h.good r hr
+        refine Good_proc s _ r hg rfl (fun x => x) ?_ ?_
+        · intro he
+          unfold Good GoodCore at hg
+          have := (hg.2.2.2.2.1 he).2
+          rw [hproc] at this
+          exact this
+        · unfold Good GoodCore at hg
+          have := hg.2.2.2.2.2
+          rw [hproc] at this
+          exact this
+      · intro x hx
+        simp only [procHolds, Option.some.injEq] at hx; subst hx
+        exact h.procId id (by simp [procHolds, hproc])
+    · simp at hs
+  | finish =>
+    simp only [step] at hs
+    split at hs
+    · rename_i id disc hproc
+      have hidlt : id < s.nextRemote := h.procId id (by simp [procHolds, hproc])
+      have toIdle : Inv { s with proc := .idle } :=
+        ⟨Fresh_of_eq s _ h.fresh rfl rfl rfl rfl rfl rfl, LogIds_of s _ h.logIds rfl (Nat.le_refl _),
+          fun r hr => Good_proc s _ r (h.good r hr) rfl (fun x => x) (fun _ => trivial) trivial,
+          fun x hx => by simp [procHolds] at hx⟩
+      split at hs
+      · obtain ⟨d1, d2, d3, d4, d5, d6, d7⟩ := deregister_live s id .procRead
+        have hest : ∀ r ∈ s.regs, r.id = id → r.ready = true ∧ phaseOf r s.log = .est := by
+          intro r hr hrid
+          have hg := h.good r hr
+          unfold Good GoodCore at hg
+          rw [hproc] at hg
+          obtain ⟨_, g1, g2, g3, g4, g5⟩ := hg
+          have hready : r.ready = true := g5 hrid.symm
+          refine ⟨hready, ?_⟩
+          cases hp : phaseOf r s.log with
+          | init => have := g2 hp; simp [hready] at this
+          | est => rfl
+          | ended => exact absurd hrid.symm (g4 hp).2
+          | bad => exact absurd hp g1
+        by_cases hok : (deregister s id Who.procRead).1 = true
+        · simp only [hok, if_true, Option.some.injEq] at hs; subst hs
+          refine ⟨hf', ?_, ?_, ?_⟩
+          · refine LogIds_emit s _ h.logIds (.disconnected id) (by simp [emit, d3]) (by simp [emit, d5]) ?_
+            intro x hx; simp [Ev.rid] at hx; omega
+          · intro r hr
+            have hr' : r ∈ s.regs := by simpa [emit, d2] using hr
+            by_cases hrid : r.id = id
+            · obtain ⟨hready, hph⟩ := hest r hr' hrid
+              unfold Good GoodCore
+              simp only [emit]
+              rw [phaseOf_append, d3, hph, d1]
+              simp [Ev.rid, hrid, phaseStep, hready]
+            · refine Good_proc s _ r (h.good r hr') ?_ ?_ (fun _ => trivial) trivial
+              · simp only [emit]; rw [d3]; apply phaseOf_emit_other; simp [Ev.rid]; exact fun hh => hrid hh.symm
+              · intro hc
+                simp only [emit] at hc
+                rw [d1] at hc
+                exact contains_filter_ne _ _ _ hc
+          · intro x hx; simp [emit, procHolds] at hx
+        · simp only [hok, if_false, Option.some.injEq] at hs; subst hs
+          refine ⟨hf', LogIds_of s _ h.logIds (by simp [d3]) (by simp [d5]), ?_, ?_⟩
+          · intro r hr
+            have hr' : r ∈ s.regs := by simpa [d2] using hr
+            refine Good_proc s _ r (h.good r hr') (by simp [d3]) ?_ (fun _ => trivial) trivial
+            intro hc
+            rw [d1] at hc
+            exact contains_filter_ne _ _ _ hc
+          · intro x hx; simp [procHolds] at hx
+      · simp only [Option.some.injEq] at hs; subst hs; exact toIdle
+    · simp at hs
+  | pollLocal lid remotes datas =>
+    simp only [step] at hs
+    split at hs
+    · split at hs
+      · simp only [Option.some.injEq] at hs; subst hs
+        exact ⟨hf', LogIds_of s _ h.logIds rfl (Nat.le_refl _),
+          fun r hr => Good_proc s _ r (h.good r hr) rfl (fun x => x) (fun _ => trivial) trivial,
+          fun x hx => by simp [procHolds] at hx⟩
+      · simp only [Option.some.injEq] at hs; subst hs; exact h
+    · simp at hs
+  | acceptOne =>
+    simp only [step] at hs
+    split at hs
+    · rename_i lid peer rest datas hproc
+      simp only [Option.some.injEq] at hs; subst hs
+      refine ⟨hf', LogIds_of s _ h.logIds rfl (by simp), ?_, ?_⟩
+      · intro r hr
+        simp only at hr
+        rcases List.mem_append.mp hr with hr | hr
+        · refine Good_proc s _ r (h.good r hr) rfl ?_ (fun _ => trivial) trivial
+          intro hc
+          simp only [List.contains_eq_mem, List.mem_append, List.mem_singleton, decide_eq_true_eq] at hc ⊢
+          rcases hc with hc | hc
+          · exact hc
+          · have := h.fresh.regsLt r hr; omega
+        · simp only [List.mem_singleton] at hr; subst hr
+          exact Good_new s _ h.logIds _ rfl rfl rfl trivial
+      · intro x hx; simp [procHolds] at hx
+    · simp only [Option.some.injEq] at hs; subst hs
+      refine ⟨hf', ?_, ?_, ?_⟩
+      · refine LogIds_emit s _ h.logIds _ rfl rfl ?_
+        intro x hx; simp [Ev.rid] at hx
+      · intro r hr
+        refine Good_proc s _ r (h.good r hr) ?_ (fun x => x) (fun _ => trivial) trivial
+        simp only [emit]; rw [phaseOf_append]; simp [Ev.rid]
+      · intro x hx; simp [emit, procHolds] at hx
+    · simp only [Option.some.injEq] at hs; subst hs
+      exact ⟨hf', LogIds_of s _ h.logIds rfl (Nat.le_refl _),
+        fun r hr => Good_proc s _ r (h.good r hr) rfl (fun x => x) (fun _ => trivial) trivial,
+        fun x hx => by simp [procHolds] at hx⟩
+    · simp at hs
+
+theorem reachable_inv (s : St) (h : Reachable s) : Inv s := by
+  obtain ⟨acts, hr⟩ := h
+  exact run_preserves (P := Inv) step_inv acts _ s Inv_init hr
+
+/-! ### how a step changes the registry: it registers one fresh id, or registers nothing -/
+
+inductive Shape (s s' : St) : Prop where
+  | same (hn : s'.nextRemote = s.nextRemote) (hl : ∀ x, x ∈ s'.live → x ∈ s.live)
+      (hr : s'.regs.map (·.id) = s.regs.map (·.id))
+  | reg (r : Reg) (hid : r.id = s.nextRemote) (hn : s'.nextRemote = s.nextRemote + 1)
+      (hl : s'.live = s.live ++ [s.nextRemote]) (hr : s'.regs = s.regs ++ [r])
+
+theorem deregister_shape (s : St) (id : Nat) (w : Who) :
+    (deregister s id w).2.nextRemote = s.nextRemote ∧ (∀ x, x ∈ (deregister s id w).2.live → x ∈ s.live) ∧
+    (deregister s id w).2.regs = s.regs := by
+  obtain ⟨d1, d2, d3, d4, d5, d6, d7⟩ := deregister_live s id w
+  refine ⟨d5, ?_, d2⟩
+  intro x hx; rw [d1] at hx; exact (List.mem_filter.mp hx).1
+
+theorem step_shape (s s' : St) (a : Act) (hs : step s a = some s') : Shape s s' := by
+  cases a with
+  | connect peer =>
+    simp only [step, Option.some.injEq] at hs; subst hs
+    exact .reg ⟨s.nextRemote, none, false, peer⟩ rfl rfl rfl rfl
+  | listen => simp only [step, Option.some.injEq] at hs; subst hs; exact .same rfl (fun _ h => h) rfl
+  | send id adapter =>
+    simp only [step] at hs
+    split at hs
+    · split at hs
+      · split at hs <;> (simp only [Option.some.injEq] at hs; subst hs; exact .same rfl (fun _ h => h) rfl)
+      · simp only [Option.some.injEq] at hs; subst hs; exact .same rfl (fun _ h => h) rfl
+    · simp only [Option.some.injEq] at hs; subst hs; exact .same rfl (fun _ h => h) rfl
+  | remove id =>
+    simp only [step, Option.some.injEq] at hs; subst hs
+    obtain ⟨e1, e2, e3⟩ := deregister_shape s id .user
+    split <;> exact .same (by simp [record, e1]) (by simpa [record] using e2) (by simp [record, e3])
+  | removeLocal lid =>
+    simp only [step] at hs
+    split at hs <;> (simp only [Option.some.injEq] at hs; subst hs; exact .same rfl (fun _ h => h) rfl)
+  | isReady id =>
+    simp only [step] at hs
+    split at hs
+    · split at hs <;> (simp only [Option.some.injEq] at hs; subst hs; exact .same rfl (fun _ h => h) rfl)
+    · simp only [Option.some.injEq] at hs; subst hs; exact .same rfl (fun _ h => h) rfl
+  | pollRemote id read =>
+    simp only [step] at hs
+    split at hs
+    · split at hs <;> (simp only [Option.some.injEq] at hs; subst hs; exact .same rfl (fun _ h => h) rfl)
+    · simp at hs
+  | pending ans =>
+    simp only [step] at hs
+    split at hs
+    · split at hs
+      · split at hs
+        · simp at hs
+        · cases ans with
+          | ready =>
+            simp only [Option.some.injEq] at hs; subst hs
+            exact .same rfl (fun _ h => h) (by simp [emit, setReady_ids])
+          | incomplete => simp only [Option.some.injEq] at hs; subst hs; exact .same rfl (fun _ h => h) rfl
+          | disconnected =>
+            simp only [Option.some.injEq] at hs; subst hs
+            have hd := fun id => deregister_shape s id .procPending
+            split <;> exact .same (by simp [emit, (hd _).1]) (by simpa [emit] using (hd _).2.1) (by simp [emit, (hd _).2.2])
+      · simp at hs
+    · simp at hs
+  | checkReady =>
+    simp only [step] at hs
+    split at hs
+    · split at hs
+      · split at hs
+        · simp only [Option.some.injEq] at hs; subst hs; exact .same rfl (fun _ h => h) rfl
+        · simp at hs
+      · simp at hs
+    · simp at hs
+  | beginReceive n disc =>
+    simp only [step] at hs
+    split at hs
+    · split at hs
+      · split at hs
+        · split at hs <;> (simp only [Option.some.injEq] at hs; subst hs; exact .same rfl (fun _ h => h) rfl)
+        · split at hs
+          · simp only [Option.some.injEq] at hs; subst hs; exact .same rfl (fun _ h => h) rfl
+          · simp at hs
+      · simp at hs
+    · simp at hs
+  | deliver =>
+    simp only [step] at hs
+    split at hs
+    · simp only [Option.some.injEq] at hs; subst hs; exact .same rfl (fun _ h => h) rfl
+    · simp at hs
+  | endReceive =>
+    simp only [step] at hs
+    split at hs
+    · simp only [Option.some.injEq] at hs; subst hs; exact .same rfl (fun _ h => h) rfl
+    · simp at hs
+  | finish =>
+    simp only [step] at hs
+    split at hs
+    · split at hs
+      · simp only [Option.some.injEq] at hs; subst hs
+        have hd := fun id => deregister_shape s id .procRead
+        split <;> exact .same (by simp [emit, (hd _).1]) (by simpa [emit] using (hd _).2.1) (by simp [emit, (hd _).2.2])
+      · simp only [Option.some.injEq] at hs; subst hs; exact .same rfl (fun _ h => h) rfl
+    · simp at hs
+  | pollLocal lid remotes datas =>
+    simp only [step] at hs
+    split at hs
+    · split at hs <;> (simp only [Option.some.injEq] at hs; subst hs; exact .same rfl (fun _ h => h) rfl)
+    · simp at hs
+  | acceptOne =>
+    simp only [step] at hs
+    split at hs
+    · rename_i lid peer rest datas _
+      simp only [Option.some.injEq] at hs; subst hs
+      exact .reg ⟨s.nextRemote, some lid, false, peer⟩ rfl rfl rfl rfl
+    · simp only [Option.some.injEq] at hs; subst hs; exact .same rfl (fun _ h => h) rfl
+    · simp only [Option.some.injEq] at hs; subst hs; exact .same rfl (fun _ h => h) rfl
+    · simp at hs
+
+/-- once an id is out of the registry it never comes back (ids are never reused) -/
+theorem run_not_live : ∀ (acts : List Act) (s s' : St) (id : Nat), id < s.nextRemote → id ∉ s.live →
+    run s acts = some s' → id ∉ s'.live ∧ id < s'.nextRemote := by
+  intro acts
+  induction acts with
+  | nil => intro s s' id h1 h2 hr; simp only [run, Option.some.injEq] at hr; subst hr; exact ⟨h2, h1⟩
+  | cons a as ih =>
+    intro s s' id h1 h2 hr
+    simp only [run] at hr
+    split at hr
+    · rename_i s1 hs1
+      cases step_shape s s1 a hs1 with
+      | same hn hl _ => exact ih s1 s' id (by omega) (fun hm => h2 (hl id hm)) hr
+      | reg r hid hn hl _ =>
+        refine ih s1 s' id (by omega) ?_ hr
+        rw [hl]; intro hm
+        rcases List.mem_append.mp hm with hm | hm
+        · exact h2 hm
+        · simp only [List.mem_singleton] at hm; omega
+    · simp at hr
+
+/-- every id handed out so far has a register -/
+def RegsAll (s : St) : Prop := ∀ id, id < s.nextRemote → id ∈ s.regs.map (·.id)
+
+theorem reachable_regsAll (s : St) (h : Reachable s) : RegsAll s := by
+  obtain ⟨acts, hr⟩ := h
+  refine run_preserves (P := RegsAll) ?_ acts _ s (by intro id h; simp at h) hr
+  intro s s' a hi hs id hid
+  cases step_shape s s' a hs with
+  | same hn _ hr => rw [hr]; exact hi id (by omega)
+  | reg r hrid hn _ hr =>
+    rw [hr, List.map_append]
+    by_cases hlt : id < s.nextRemote
+    · exact List.mem_append_left _ (hi id hlt)
+    · apply List.mem_append_right
+      simp only [List.map_cons, List.map_nil, List.mem_singleton]; omega
+
+/-! ### what a step appends to the event log and to the deregistration record (C04) -/
+
+def isDisc : Ev → Bool
+  | .disconnected _ => true
+  | _ => false
+
+inductive Delta (s s' : St) : Prop where
+  | quiet (evs : List Ev) (hlog : s'.log = s.log ++ evs) (hev : ∀ e ∈ evs, isDisc e = false)
+      (hd : s'.dereg = s.dereg) (hr : s'.removeTrue = s.removeTrue)
+  | userRemove (id : Nat) (hlog : s'.log = s.log) (hd : s'.dereg = s.dereg ++ [(id, .user)])
+      (hr : s'.removeTrue = s.removeTrue ++ [id])
+  | procDisc (id : Nat) (hlog : s'.log = s.log ++ [.disconnected id])
+      (hd : s'.dereg = s.dereg ++ [(id, .procRead)]) (hr : s'.removeTrue = s.removeTrue)
+      (hproc : ∃ d, s.proc = .afterReceive id d)
+  | pendFail (id : Nat) (evs : List Ev) (hlog : s'.log = s.log ++ evs) (hev : ∀ e ∈ evs, isDisc e = false)
+      (hd : s'.dereg = s.dereg ++ [(id, .procPending)]) (hr : s'.removeTrue = s.removeTrue)
+
+theorem deregister_delta (s : St) (id : Nat) (w : Who) :
+    ((deregister s id w).1 = true ∧ (deregister s id w).2.dereg = s.dereg ++ [(id, w)]) ∨
+    ((deregister s id w).1 = false ∧ (deregister s id w).2.dereg = s.dereg) := by
+  unfold deregister
+  split <;> simp
+
+theorem step_delta (s s' : St) (a : Act) (hs : step s a = some s') : Delta s s' := by
+  have q0 : ∀ t : St, t.log = s.log → t.dereg = s.dereg → t.removeTrue = s.removeTrue → Delta s t :=
+    fun t h1 h2 h3 => .quiet [] (by simp [h1]) (by simp) h2 h3
+  cases a with
+  | connect peer => simp only [step, Option.some.injEq] at hs; subst hs; exact q0 _ rfl rfl rfl
+  | listen => simp only [step, Option.some.injEq] at hs; subst hs; exact q0 _ rfl rfl rfl
+  | send id adapter =>
+    simp only [step] at hs
+    split at hs
+    · split at hs
+      · split at hs <;> (simp only [Option.some.injEq] at hs; subst hs; exact q0 _ rfl rfl rfl)
+      · simp only [Option.some.injEq] at hs; subst hs; exact q0 _ rfl rfl rfl
+    · simp only [Option.some.injEq] at hs; subst hs; exact q0 _ rfl rfl rfl
+  | remove id =>
+    simp only [step, Option.some.injEq] at hs; subst hs
+    obtain ⟨d1, d2, d3, d4, d5, d6, d7⟩ := deregister_live s id .user
+    rcases deregister_delta s id .user with ⟨h1, h2⟩ | ⟨h1, h2⟩
+    · simp only [h1, if_true]
+      exact .userRemove id (by simp [record, d3]) (by simp [record, h2]) (by simp [record, d6])
+    · simp only [h1]
+      exact q0 _ (by simp [record, d3]) (by simp [record, h2]) (by simp [record, d6])
+  | removeLocal lid =>
+    simp only [step] at hs
+    split at hs <;> (simp only [Option.some.injEq] at hs; subst hs; exact q0 _ rfl rfl rfl)
+  | isReady id =>
+    simp only [step] at hs
+    split at hs
+    · split at hs <;> (simp only [Option.some.injEq] at hs; subst hs; exact q0 _ rfl rfl rfl)
+    · simp only [Option.some.injEq] at hs; subst hs; exact q0 _ rfl rfl rfl
+  | pollRemote id read =>
+    simp only [step] at hs
+    split at hs
+    · split at hs <;> (simp only [Option.some.injEq] at hs; subst hs; exact q0 _ rfl rfl rfl)
+    · simp at hs
+  | pending ans =>
+    simp only [step] at hs
+    split at hs
+    · rename_i id read _
+      split at hs
+      · rename_i r0 _
+        split at hs
+        · simp at hs
+        · cases ans with
+          | ready =>
+            simp only [Option.some.injEq] at hs; subst hs
+            refine .quiet [_] rfl ?_ rfl rfl
+            intro e he; simp only [List.mem_singleton] at he; subst he
+            cases r0.listener <;> rfl
+          | incomplete => simp only [Option.some.injEq] at hs; subst hs; exact q0 _ rfl rfl rfl
+          | disconnected =>
+            simp only [Option.some.injEq] at hs; subst hs
+            obtain ⟨d1, d2, d3, d4, d5, d6, d7⟩ := deregister_live s id .procPending
+            rcases deregister_delta s id .procPending with ⟨h1, h2⟩ | ⟨h1, h2⟩
+            · cases hl : r0.listener with
+              | none =>
+                simp only [hl]
+                exact .pendFail id [.connected id false] (by simp [emit, d3])
+                  (by intro e he; simp only [List.mem_singleton] at he; subst he; rfl) (by simp [emit, h2]) (by simp [emit, d6])
+              | some l =>
+                simp only [hl]
+                exact .pendFail id [] (by simp [d3]) (by simp) (by simp [h2]) (by simp [d6])
+            · cases hl : r0.listener with
+              | none =>
+                simp only [hl]
+                exact .quiet [.connected id false] (by simp [emit, d3])
+                  (by intro e he; simp only [List.mem_singleton] at he; subst he; rfl) (by simp [emit, h2]) (by simp [emit, d6])
+              | some l => simp only [hl]; exact q0 _ (by simp [d3]) (by simp [h2]) (by simp [d6])
+      · simp at hs
+    · simp at hs
+  | checkReady =>
+    simp only [step] at hs
+    split at hs
+    · split at hs
+      · split at hs
+        · simp only [Option.some.injEq] at hs; subst hs; exact q0 _ rfl rfl rfl
+        · simp at hs
+      · simp at hs
+    · simp at hs
+  | beginReceive n disc =>
+    simp only [step] at hs
+    split at hs
+    · split at hs
+      · split at hs
+        · split at hs <;> (simp only [Option.some.injEq] at hs; subst hs; exact q0 _ rfl rfl rfl)
+        · split at hs
+          · simp only [Option.some.injEq] at hs; subst hs; exact q0 _ rfl rfl rfl
+          · simp at hs
+      · simp at hs
+    · simp at hs
+  | deliver =>
+    simp only [step] at hs
+    split at hs
+    · simp only [Option.some.injEq] at hs; subst hs
+      exact .quiet [_] rfl (by intro e he; simp only [List.mem_singleton] at he; subst he; rfl) rfl rfl
+    · simp at hs
+  | endReceive =>
+    simp only [step] at hs
+    split at hs
+    · simp only [Option.some.injEq] at hs; subst hs; exact q0 _ rfl rfl rfl
+    · simp at hs
+  | finish =>
+    simp only [step] at hs
+    split at hs
+    · rename_i id disc hproc
+      split at hs
+      · obtain ⟨d1, d2, d3, d4, d5, d6, d7⟩ := deregister_live s id .procRead
+        rcases deregister_delta s id .procRead with ⟨h1, h2⟩ | ⟨h1, h2⟩
+        · simp only [h1, if_true, Option.some.injEq] at hs; subst hs
+          exact .procDisc id (by simp [emit, d3]) (by simp [emit, h2]) (by simp [emit, d6]) ⟨disc, hproc⟩
+        · simp only [h1, Option.some.injEq] at hs
+          simp only [Bool.false_eq_true, if_false] at hs; subst hs
+          exact q0 _ (by simp [d3]) (by simp [h2]) (by simp [d6])
+      · simp only [Option.some.injEq] at hs; subst hs; exact q0 _ rfl rfl rfl
+    · simp at hs
+  | pollLocal lid remotes datas =>
+    simp only [step] at hs
+    split at hs
+    · split at hs <;> (simp only [Option.some.injEq] at hs; subst hs; exact q0 _ rfl rfl rfl)
+    · simp at hs
+  | acceptOne =>
+    simp only [step] at hs
+    split at hs
+    · simp only [Option.some.injEq] at hs; subst hs; exact q0 _ rfl rfl rfl
+    · simp only [Option.some.injEq] at hs; subst hs
+      exact .quiet [_] rfl (by intro e he; simp only [List.mem_singleton] at he; subst he; rfl) rfl rfl
+    · simp only [Option.some.injEq] at hs; subst hs; exact q0 _ rfl rfl rfl
+    · simp at hs
+
+/-- `Disconnected` events and successful `remove()` calls are exactly the successful
+deregistrations by the read path and by the user -/
+def CountInv (s : St) : Prop :=
+  (∀ id, s.log.count (.disconnected id) = s.dereg.count (id, .procRead)) ∧
+  (∀ id, s.removeTrue.count id = s.dereg.count (id, .user))
+
+theorem count_quiet (evs : List Ev) (hev : ∀ e ∈ evs, isDisc e = false) (id : Nat) :
+    evs.count (.disconnected id) = 0 := by
+  rw [List.count_eq_zero]
+  intro hm
+  have := hev _ hm
+  simp [isDisc] at this
+
+theorem step_countinv (s s' : St) (a : Act) (h : CountInv s) (hs : step s a = some s') : CountInv s' := by
+  obtain ⟨h1, h2⟩ := h
+  cases step_delta s s' a hs with
+  | quiet evs hlog hev hd hr =>
+    constructor
+    · intro id; rw [hlog, hd, List.count_append, count_quiet evs hev id, h1 id]; simp
+    · intro id; rw [hr, hd, h2 id]
+  | userRemove id0 hlog hd hr =>
+    constructor
+    · intro id; rw [hlog, hd, List.count_append, h1 id]; simp
+    · intro id
+      rw [hr, hd, List.count_append, List.count_append, h2 id]
+      by_cases he : id0 = id <;> simp [he]
+  | procDisc id0 hlog hd hr _ =>
+    constructor
+    · intro id
+      rw [hlog, hd, List.count_append, List.count_append, h1 id]
+      by_cases he : id0 = id <;> simp [he]
+    · intro id; rw [hr, hd, List.count_append, h2 id]; simp
+  | pendFail id0 evs hlog hev hd hr =>
+    constructor
+    · intro id; rw [hlog, hd, List.count_append, List.count_append, count_quiet evs hev id, h1 id]; simp
+    · intro id; rw [hr, hd, List.count_append, h2 id]; simp
+
+theorem reachable_countinv (s : St) (h : Reachable s) : CountInv s := by
+  obtain ⟨acts, hr⟩ := h
+  exact run_preserves (P := CountInv) step_countinv acts _ s (by constructor <;> intro id <;> simp) hr
+
+/-- pairs with distinct first components: two pairs with the same first component count at most once -/
+theorem count_pair_le_one (l : List (Nat × Who)) (h : (l.map (·.1)).Nodup) (id : Nat) (w1 w2 : Who)
+    (hne : w1 ≠ w2) : l.count (id, w1) + l.count (id, w2) ≤ 1 := by
+  induction l with
+  | nil => simp
+  | cons x xs ih =>
+    simp only [List.map_cons, List.nodup_cons] at h
+    have := ih h.2
+    simp only [List.count_cons]
+    by_cases hx : x.1 = id
+    · have hz : ∀ w, xs.count (id, w) = 0 := by
+        intro w
+        rw [List.count_eq_zero]
+        intro hm
+        exact h.1 (hx ▸ List.mem_map.mpr ⟨(id, w), hm, rfl⟩)
+      rw [hz w1, hz w2]
+      obtain ⟨a, b⟩ := x
+      simp only at hx; subst hx
+      by_cases hb1 : b = w1
+      · subst hb1; simp [hne]
+      · by_cases hb2 : b = w2
+        · subst hb2; simp [hb1]
+        · simp [hb1, hb2]
+    · have e1 : (x == (id, w1)) = false := by
+        obtain ⟨a, b⟩ := x; simp at hx ⊢; intro h; exact absurd h hx
+      have e2 : (x == (id, w2)) = false := by
+        obtain ⟨a, b⟩ := x; simp at hx ⊢; intro h; exact absurd h hx
+      simp only [e1, e2]
+      simpa using this
 
 end Mio.Net
